@@ -35,9 +35,25 @@ Mangled(s, how) == [s EXCEPT !.wrap = how]       \* any byte-level change of a s
 (* mutations: target x class.  "none" = the unmutated tuple *)
 Targets == {"none", "msg", "sig", "key", "alg"}
 MsgMuts == {"flip-first", "flip-middle", "flip-last", "truncate", "extend", "empty"}
-SigMuts == {"flip-first", "flip-middle", "flip-last", "truncate", "extend", "zero", "empty", "reencode",
-            "resalt",     \* a genuine PSS signature with another salt length than the algorithm identifier fixes
-            "badpad"}     \* the RSA private operation on an encoded message with one padding byte changed
+(* byte-level classes *)
+SigByteMuts == {"flip-first", "flip-middle", "flip-last", "truncate", "extend", "zero", "empty", "reencode",
+                "resalt",     \* a genuine PSS signature with another salt length than the algorithm identifier fixes
+                "badpad"}     \* the RSA private operation on an encoded message with one padding byte changed
+(* algebraic classes: values the verification equation cannot tell from the genuine one unless the
+   range checks of the scheme are made - none of them is a valid signature.
+   DSA / ECDSA signatures are pairs (r, s) in [1, order-1]^2 (order = q resp. n): *)
+PairMuts == {"s-plus-order",   \* (r, s + k*order), k = 1..3        same residue of s
+             "r-plus-order",   \* (r + order, s)
+             "s-zero", "r-zero", "s-order", "r-order",          \* the excluded boundary values
+             "s-neg", "r-neg"}  \* a negative INTEGER: -x, or x re-encoded without its sign octet
+(* RSA signatures are integers in [0, N-1] written in exactly k = |N| octets: *)
+RSAMuts == {"plus-modulus",    \* s + N: same residue (k octets when it fits, else k + 1)
+            "zero-prepended",  \* 00 || s
+            "zero-removed"}    \* s without its leading zero octet (for a genuine s that has one)
+(* ECDSA malleability: (r, n - s) verifies wherever (r, s) does - it IS itself a valid signature of
+   the same key on the same bytes, so the statement says nothing about it: left open *)
+MalleableMuts == {"s-complement"}
+SigMuts == SigByteMuts \cup PairMuts \cup RSAMuts \cup MalleableMuts
 KeyMuts == {"other-same-type", "other-type"}
 AlgMuts == SigAlgs \cup {"bogus"}          \* the claimed algorithm replaced by this one
 MutsOf(target) == CASE target = "none" -> {"none"} [] target = "msg" -> MsgMuts [] target = "sig" -> SigMuts
@@ -50,6 +66,9 @@ Applicable(c) == /\ CanSign(c.kt, c.alg)
                  /\ (c.mut = "reencode" => DERWrapped(c.kt))
                  /\ (c.mut = "resalt" => AlgPad(c.alg) = "pss")
                  /\ (c.mut = "badpad" => AlgPad(c.alg) = "pkcs1v15")
+                 /\ (c.target = "sig" /\ c.mut \in PairMuts => DERWrapped(c.kt))
+                 /\ (c.target = "sig" /\ c.mut \in RSAMuts => Family(c.kt) = "rsa")
+                 /\ (c.target = "sig" /\ c.mut \in MalleableMuts => Family(c.kt) = "ecdsa")
                  /\ (c.target = "alg" => c.mut # c.alg)
 
 (* the verification tuple a case presents: genuine = sig(K, Eff(alg), M) *)
@@ -65,7 +84,9 @@ IdealVerify(t, eff(_, _)) == t.s = SigT(t.k, eff(t.kt, t.alg), t.m)
 
 EffLabel(kt, a) == Eff(a)
 (* the set of verdicts the property allows for a case *)
-AllowedAccept(c) == { IdealVerify(Tuple(c, EffLabel), EffLabel), IdealVerify(Tuple(c, EffK), EffK) }
+Malleable(c) == c.target = "sig" /\ c.mut \in MalleableMuts
+AllowedAccept(c) == IF Malleable(c) THEN {TRUE, FALSE}
+                    ELSE { IdealVerify(Tuple(c, EffLabel), EffLabel), IdealVerify(Tuple(c, EffK), EffK) }
 Judged(c) == Cardinality(AllowedAccept(c)) = 1
 
 (* observation: [c: case, accept: BOOLEAN (the verification API returned nil), stdAccept in
@@ -81,8 +102,8 @@ IdealBad(o) ==
 LabelOnly(c) == c.target = "alg" /\ EffK(c.kt, c.mut) = EffK(c.kt, c.alg)
 AcceptIffUnmutated(c) ==
   /\ (c.target = "none" => AllowedAccept(c) = {TRUE})
-  /\ (c.target # "none" /\ ~LabelOnly(c) => AllowedAccept(c) = {FALSE})
-  /\ (LabelOnly(c) => AllowedAccept(c) = {TRUE, FALSE})
+  /\ (c.target # "none" /\ ~LabelOnly(c) /\ ~Malleable(c) => AllowedAccept(c) = {FALSE})
+  /\ (LabelOnly(c) \/ Malleable(c) => AllowedAccept(c) = {TRUE, FALSE})
 
 -----------------------------------------------------------------------------
 (* second machine: objects the library signs itself.
